@@ -115,6 +115,23 @@ FUNCS = [
     ("C14", "dataiter/list_of_dicts.py", "ListOfDicts.from_json", [], "ListOfDicts_from_json"),
     ("C14", "dataiter/list_of_dicts.py", "ListOfDicts.read_json", [], "ListOfDicts_read_json"),
     ("C14", "dataiter/list_of_dicts.py", "ListOfDicts.read_csv", [], "ListOfDicts_read_csv"),
+    ("C19", "dataiter/regex.py", "_prep", [], "regex_prep"),
+    ("C19", "dataiter/regex.py", "findall", [], "regex_findall"),
+    ("C19", "dataiter/regex.py", "fullmatch", [], "regex_fullmatch"),
+    ("C19", "dataiter/regex.py", "match", [], "regex_match"),
+    ("C19", "dataiter/regex.py", "search", [], "regex_search"),
+    ("C19", "dataiter/regex.py", "split", [], "regex_split"),
+    ("C19", "dataiter/regex.py", "sub", [], "regex_sub"),
+    ("C19", "dataiter/regex.py", "subn", [], "regex_subn"),
+    ("C19", "dataiter/dt.py", "_pull_int", [], "dt_pull_int"),
+    ("C19", "dataiter/dt.py", "_pull_str", [], "dt_pull_str"),
+    ("C19", "dataiter/dt.py", "_pull_datetime", [], "dt_pull_datetime"),
+    ("C19", "dataiter/dt.py", "to_string", [], "dt_to_string"),
+    ("C19", "dataiter/dt.py", "from_string", [], "dt_from_string"),
+    ("C19", "dataiter/dt.py", "year", [], "dt_year"),
+    ("C19", "dataiter/dt.py", "quarter", [], "dt_quarter"),
+    ("C19", "dataiter/dt.py", "weekday", [], "dt_weekday"),
+    ("C19", "dataiter/dt.py", "replace", [], "dt_replace"),
     ("C11", "dataiter/vector.py", "Vector.sort", [], "Vector_sort"),
     ("C11", "dataiter/vector.py", "Vector.rank", [], "Vector_rank"),
     ("C11", "dataiter/vector.py", "Vector.unique", [], "Vector_unique"),
